@@ -30,7 +30,7 @@ impl<'a> Visitor for V<'a> {
                 return Err(format!("{d}: size() = {} but the encoding has {} bytes", post.size, post.enc.len()));
             }
         }
-        if matches!(cx.fam(), FamId::Var | FamId::Wide) {
+        if matches!(cx.fam(), FamId::Var | FamId::Wide | FamId::Tiny) {
             return Ok(()); // exact refusal is claimed for 64-byte signatures only
         }
         if let Some(op) = cx.op {
@@ -65,6 +65,13 @@ impl<'a> Visitor for V<'a> {
                     _ => {}
                 }
             }
+            (Expect::Either(kinds, _), Some(_)) if !kinds.contains(&EK::Size) => {
+                // an outcome left open for another reason (e.g. a 65-byte key value) still may not be
+                // refused for SIZE when the result fits
+                if size_refused {
+                    return Err(format!("{d}: refused for size although the result would be {n} bytes (<= 300)"));
+                }
+            }
             (Expect::MustOk(_), None) | (Expect::Either(..), None) => {
                 // builder: nothing at or below 292 bytes is refused for size
                 if size_refused && n <= 292 {
@@ -81,7 +88,6 @@ impl<'a> Visitor for V<'a> {
 fn sweep_ops(fam: FamId) -> Vec<Op> {
     let v4: std::net::SocketAddr = "10.1.2.3:9000".parse().unwrap();
     let v6: std::net::SocketAddr = "[fe80::1]:9001".parse().unwrap();
-    let _ = fam;
     vec![
         Op::SetSeq { seq: 0, k: 0 }, // target seq is patched per seq class
         Op::Insert { key: b"eth2".to_vec(), val: TVal::Bytes(vec![1, 2, 3, 4]), k: 0 },
@@ -108,13 +114,25 @@ fn sweep_ops(fam: FamId) -> Vec<Op> {
         Op::RemoveKey { key: b"absent".to_vec(), k: 0 },
         Op::RemoveInsert { remove: vec![b"absent".to_vec()], insert: vec![(b"eth2".to_vec(), vec![9, 9])], k: 0 },
         Op::SetPublicKey { pk_of: 0, k: 0 },
+        // the signer's own key in the 65-byte uncompressed form: the stored entry is the 33-byte form
+        Op::RemoveInsert {
+            remove: vec![],
+            insert: vec![(fam.key_name().to_vec(), {
+                let pk = fam.ref_pk(&history::exhaustive_keys(fam)[0].0);
+                match crate::refmodel::crypto::secp_uncompressed(&pk) {
+                    Some(u) => [&[4u8][..], &u[..]].concat(),
+                    None => [&pk[..], &[0u8; 9][..]].concat(),
+                }
+            })],
+            k: 0,
+        },
     ]
 }
 
 fn fake_snap(fam: FamId, secret: &[u8; 32], seq: u64, pairs: &[(Vec<u8>, Vec<u8>)]) -> Snap {
     let mut m: model::Pairs = pairs.iter().cloned().collect();
     m.insert(b"id".to_vec(), rlp::encode_str(b"v4"));
-    m.insert(fam.scheme().key_name().to_vec(), rlp::encode_str(&fam.ref_pk(secret)));
+    m.insert(fam.key_name().to_vec(), rlp::encode_str(&fam.ref_pk(secret)));
     Snap { seq, pairs: model::to_vec(&m), sig: vec![], node_id: [0; 32], enc: vec![], size: 0, pk: Ok(vec![]), pk_unc: Ok(vec![]), verify: Ok(true) }
 }
 
